@@ -1,6 +1,7 @@
 // STEPfile seam.  Commands (one per line on stdin), answers on fd 3 terminated by a "." line.
 //   new [strict]            fresh InstMgr + STEPfile (same Registry)
 //   read F | append F | readws F | appendws F      -> "sev <n> errs <n> warns <n>"
+//   ctor F [strict]                                   the same through STEPfile's constructor
 //   write F | writews F     -> "sev <n>"
 //   dump                    -> per instance: "I <id> <state> <ENTITY> <hex of STEPwrite text>"
 //   hdr                     -> per header instance the same
@@ -65,6 +66,14 @@ int main( int argc, char ** argv ) {
             break;
         } else if( cmd == "new" ) {
             fresh( a == "strict" );
+        } else if( cmd == "ctor" ) {
+            // a session whose constructor is handed the file name (and reads it): ctor <file> [strict]
+            im = new InstMgr();
+            sf = new STEPfile( *reg, *im, a, b == "strict" );
+            if( sf->Error().severity() < SEVERITY_NULL ) {
+                sf->Error().PrintContents( std::cout );
+            }
+            fprintf( g_out, "sev %d esev %d errs %d warns %d\n", ( int ) sf->Error().severity(), ( int ) sf->Error().severity(), sf->ErrorCount(), sf->WarningCount() );
         } else if( cmd == "read" || cmd == "append" || cmd == "readws" || cmd == "appendws" ) {
             Severity s;
             if( cmd == "read" ) {
